@@ -64,6 +64,7 @@ class PSNode(Node):
             next_individual.service_time = self.get_service_time(next_individual)
             next_individual.time_left = next_individual.service_time
             next_individual.with_server = True
+            self.number_in_service += 1
             self.update_all_service_end_dates()
 
     def begin_service_if_possible_release(self, ind=None, server=None):
@@ -82,4 +83,5 @@ class PSNode(Node):
             ind.service_time = self.get_service_time(ind)
             ind.time_left = ind.service_time
             ind.with_server = True
+            self.number_in_service += 1
         self.update_all_service_end_dates()
